@@ -49,6 +49,21 @@ const JCMD: Namespace<'_> = Namespace(b"http://yang.juniper.net/junos/jcmd");
 
 struct Maybe<T>(Option<(Name, T)>);
 
+/// Whether the element is marked `inactive:` (`jcmd:active="false"`): Junos ignores an inactive
+/// statement together with everything below it.
+fn is_inactive(reader: &NsReader<&[u8]>, start: &BytesStart<'_>) -> Result<bool, ReadError> {
+    // see the note on duplicate `xmlns:jcmd` attributes in `Maybe<Candidate>::read_xml()`
+    for attr in start.attributes().with_checks(false) {
+        let attr = attr.map_err(|err| ReadError::Other(err.into()))?;
+        if let (ResolveResult::Bound(JCMD), name) = reader.resolve_attribute(attr.key) {
+            if name.as_ref() == b"active" && attr.unescape_value()? == "false" {
+                return Ok(true);
+            }
+        }
+    }
+    Ok(false)
+}
+
 impl<T> ReadXml for Policies<T>
 where
     Maybe<T>: ReadXml,
@@ -76,6 +91,11 @@ where
                                 tracing::debug!(?tag);
                                 policy_options_seen = true;
                                 let end = tag.to_end();
+                                if is_inactive(reader, &tag)? {
+                                    tracing::debug!("skipping inactive policy-options");
+                                    _ = reader.read_to_end(end.name())?;
+                                    continue;
+                                }
                                 loop {
                                     match reader.read_resolved_event()? {
                                         (ResolveResult::Bound(XNM), Event::Start(tag))
@@ -200,18 +220,23 @@ impl ReadXml for Maybe<Candidate> {
                 {
                     tracing::debug!(?tag);
                     let end = tag.to_end();
+                    if is_inactive(reader, &tag)? {
+                        tracing::debug!("ignoring inactive default action");
+                        _ = reader.read_to_end(end.name())?;
+                        continue;
+                    }
                     loop {
                         match reader.read_resolved_event()? {
                             (ResolveResult::Bound(XNM), Event::Empty(tag))
                                 if tag.local_name().as_ref() == b"reject" =>
                             {
-                                reject_policy = true;
+                                reject_policy = !is_inactive(reader, &tag)?;
                             }
                             (ResolveResult::Bound(XNM), Event::Start(tag))
                                 if tag.local_name().as_ref() == b"reject" =>
                             {
+                                reject_policy = !is_inactive(reader, &tag)?;
                                 _ = reader.read_to_end(tag.to_end().name())?;
-                                reject_policy = true;
                             }
                             (_, Event::Comment(_)) => continue,
                             (_, Event::End(tag)) if tag == end => break,
